@@ -30,7 +30,13 @@ Resolve(f) == IF f.a.t = "link" THEN "b" ELSE "a"
 WriteThrough(f, c) == IF f.a.t = "link" THEN [f EXCEPT !.b = File(c)] ELSE [f EXCEPT !.a = File(c)]
 Replace(f, c) == [f EXCEPT !.a = File(c)]                        \* remove the name, create a regular file
 
-Requests == [fmt : Formats, ow : BOOLEAN, ser : {"ok", "fail"}, dest : DestStates]
+(* content: the list holds regions the format can express, or nothing it can express (an empty list; for FITS also a list of  *)
+(* sky regions only) - an empty region file is still a complete new file; via: the list entry point (Regions.write) or the    *)
+(* single-region one (Region.write); opts: the writer's options left at their defaults or given (they shape the text, and a     *)
+(* bad one is one way for serialisation to fail).  None of the three changes which steps are taken, which is the point.       *)
+Requests == {r \in [fmt : Formats, ow : BOOLEAN, ser : {"ok", "fail"}, dest : DestStates,
+                    content : {"regions", "nothing"}, via : {"list", "single"}, opts : {"default", "given"}] :
+               r.via = "single" => r.content = "regions"}
 Init == /\ req \in Requests /\ fs = InitFs(req.dest) /\ result = "-"
         /\ pc = IF req.fmt = "fits" THEN "check" ELSE (IF SwapSteps THEN "open_first" ELSE "check")
 
